@@ -866,6 +866,10 @@ def exact_case(run, idx, cfgspec, seed):
     except TypeError as ex:
         run.other_error(f"C15:{type(ex).__name__}:{str(ex)[:50]}")
         return
+    from ..exactlaw import UNRESOLVED
+    if float(lawd.pop(UNRESOLVED, 0)) > 0:         # (a retry loop in the implementation's draws: not enumerable to the end)
+        run.count("exact-law-budget-exceeded")
+        return
     run.ok(kind="exact-law:" + kind)
     kind = "interval" if kind == "interval-update" else kind
     run.count("exact-law-executions", runs_x)
@@ -913,6 +917,11 @@ def exact_rows_case(run, sizes):
                 continue
             except NotImplementedError:
                 run.count("exact-law-unsupported-draw-form")
+                continue
+            from ..exactlaw import UNRESOLVED
+            un_ = lawd.pop(UNRESOLVED, 0)
+            if float(un_) > 1e-10:
+                run.count("exact-law-budget-exceeded")
                 continue
             run.ok(kind="exact-law:rows")
             run.count("exact-law-executions", runs_x)
